@@ -32,10 +32,16 @@ func (r *ComDoc) readDir() error {
 	raw := make([]RawDirEnt, count)
 	cooked := make([]DirEnt, count)
 	rootIndex := -1
-	for sector := r.Header.DirNextSector; sector >= 0; sector = r.SAT[sector] {
+	steps := 0
+	for sector := r.Header.DirNextSector; sector >= 0; {
 		if err := r.readSectorStruct(sector, raw); err != nil {
 			return err
 		}
+		next, err := chainNext(r.SAT, sector, &steps)
+		if err != nil {
+			return err
+		}
+		sector = next
 		for i, raw := range raw {
 			cooked[i] = DirEnt{
 				RawDirEnt: raw,
@@ -77,6 +83,14 @@ func (r *ComDoc) ListDir(parent *DirEnt) ([]*DirEnt, error) {
 	if parent.Type != DirRoot && parent.Type != DirStorage {
 		return nil, errors.New("ListDir() on a non-directory object")
 	}
+	if parent.StorageRoot == -1 {
+		// empty storage
+		return nil, nil
+	}
+	inRange := func(i int32) bool { return i >= 0 && int(i) < len(r.Files) }
+	if !inRange(parent.StorageRoot) {
+		return nil, errors.New("directory entry points outside the directory")
+	}
 	top := &r.Files[parent.StorageRoot]
 	stack := []*DirEnt{top}
 	var files []*DirEnt
@@ -85,10 +99,19 @@ func (r *ComDoc) ListDir(parent *DirEnt) ([]*DirEnt, error) {
 		item := stack[i]
 		stack = stack[:i]
 		files = append(files, item)
+		if len(files) > len(r.Files) {
+			return nil, errors.New("directory tree contains a loop")
+		}
 		if item.LeftChild != -1 {
+			if !inRange(item.LeftChild) {
+				return nil, errors.New("directory entry points outside the directory")
+			}
 			stack = append(stack, &r.Files[item.LeftChild])
 		}
 		if item.RightChild != -1 {
+			if !inRange(item.RightChild) {
+				return nil, errors.New("directory entry points outside the directory")
+			}
 			stack = append(stack, &r.Files[item.RightChild])
 		}
 	}
